@@ -97,7 +97,7 @@ func c16UnHex(s string) []byte {
 
 func runC16(c *vx.Ctx) {
 	c16Quiet()
-	c.Rule = "classify: every constructor/decoder x input (first byte x ledger byte x tail x length/padding) x node location, all classification predicates compared with the reference partition of the 20 bytes held; state: BFS over StateDB/EVM operations x address classes, account trie iterated after every transition; qitx: ProcessQiTx over output-address classes x lengths x data kinds x fork regimes, created UTXO owners inspected. Outcome class = constructor x verdict / operation x result class / ProcessQiTx error class"
+	c.Rule = "classify: every constructor/decoder x input (first byte x ledger byte x tail x length/padding) x node location, all classification predicates compared with the reference partition of the 20 bytes held; state: BFS over StateDB/EVM operations x address classes, account trie iterated after every transition; qitx: ProcessQiTx over output-address classes x lengths x data kinds x fork regimes, created UTXO owners inspected. Outcome class = constructor x verdict / operation x result class / ProcessQiTx error class; sender-cache: all call sequences Hash()/Sender(signer of location L) on one transaction object x sender zones"
 	c.Assume("node locations have region and zone indices 0..15 (common.MaxRegions/MaxZones); a Location with an index >= 16 aliases another prefix and is outside the statement")
 	c.Assume("decoders that take no node location (RLP, text, JSON, MixedcaseAddress) are judged twice: against the location they hard-code and against the node's location")
 	// cheap parts first, so that a deadline can only cut the widest sweep
